@@ -85,7 +85,17 @@ def build(p):
             mod.random = old
     conv = [list, tuple, set, frozenset][(p['k'] + p['n'] + p['m']) % 4]      # any collection of literals is an assignment,
     order = reversed if (p['k'] + p['n'] + p['m'] + p['seed']) % 3 else list            # in any order
-    return fn(p['k'], p['n'], p['m'], seed=p['seed'], planted_assignments=[conv(order(list(a))) for a in p['planted']])
+    inner = [conv(order(list(a))) for a in p['planted']]
+    sel = (p['k'] + 2 * p['n'] + p['m'] + p['seed']) % 4          # and the collection of assignments is any iterable that can be read again
+    if sel == 1:
+        outer = tuple(inner)
+    elif sel == 2:
+        outer = {i: a for i, a in enumerate(inner)}.values()
+    elif sel == 3 and conv in (tuple, frozenset):
+        outer = set(inner)
+    else:
+        outer = inner
+    return fn(p['k'], p['n'], p['m'], seed=p['seed'], planted_assignments=outer)
 
 
 def judge(p, alg=None, part=None):
